@@ -148,6 +148,9 @@ func (w *World) opCreateApp() {
 	c := w.C
 	a := &App{Kind: pick(c, w.prof.Kinds), NS: pick(c, []string{"ns1", "ns2"}), Policy: pick(c, w.prof.Policies)}
 	a.Name = fmt.Sprintf("%s%d", map[string]string{"sts": "web", "dp": "api", "tapp": "job", "foo": "foo", "bare": "solo"}[a.Kind], len(w.apps))
+	if a.Kind == "tapp" && c.Prob(1, 2) {
+		a.CRKind = "Bar" // the cluster has two scalable custom resources
+	}
 	if a.Kind == "foo" && (w.prop == "C11" || w.prop == "C18") {
 		// "any owner kind": kinds whose lower-case form ends in s / ss, digits
 		a.OwnerKind = pick(c, []string{"Foo", "Wordpress", "Redis", "Harness", "Db2"})
